@@ -88,6 +88,7 @@ func pickRewrite(r *rand.Rand, rels []string) *gen.Expr {
 }
 
 type mergeGenOpt struct {
+	DupNames     bool // two list entries may carry the same Name (C12 only: the line oracle of C16 needs unique names)
 	Conflicts    int  // number of injections (0 = conflict free)
 	ForceExtends bool // at least two files extend types
 	HostileText  bool // layouts that defeat the textual line lookup
@@ -129,6 +130,9 @@ func genFileSet(r *rand.Rand, o mergeGenOpt) []*mfile {
 		if r.Intn(4) == 0 {
 			name = []string{"dir/sub/f%d.fga", "f %d.fga", "f%d-é.fga", "../f%d.fga"}[r.Intn(4)]
 			name = fmt.Sprintf(name, f)
+		}
+		if o.DupNames && f > 0 && r.Intn(3) == 0 {
+			name = files[r.Intn(len(files))].Name
 		}
 		files = append(files, &mfile{Name: name, Doc: d})
 	}
@@ -879,6 +883,7 @@ func runMerge(run *core.Run) {
 		switch {
 		case run.Prop == "C12":
 			o.ForceExtends = r.Intn(2) == 0
+			o.DupNames = r.Intn(4) == 0
 			o.Conflicts = []int{0, 0, 1, 2, 2, 3}[r.Intn(6)]
 		default:
 			o.Conflicts = []int{0, 0, 0, 1, 1, 2, 3}[r.Intn(7)]
